@@ -59,8 +59,15 @@ pub broadcast axiom fn ax_cmp_v(a: f64, b: f64) ensures #[trigger] a.partial_cmp
 pub broadcast axiom fn ax_eq_v(a: f64, b: f64) ensures #[trigger] a.eq_spec(&b) == feq(a, b);
 pub broadcast axiom fn ax_cmp_r(a: &f64, b: &f64) ensures #[trigger] a.partial_cmp_spec(&b) == fcmp(*a, *b);
 pub broadcast axiom fn ax_eq_r(a: &f64, b: &f64) ensures #[trigger] a.eq_spec(&b) == feq(*a, *b);
+// IEEE facts about comparison that do not depend on the operands' values (discharged for ALL pairs of
+// f64 by the loop-free Kani harness `ieee_cmp_flip`): a < b  <=>  b > a, equality is symmetric, an
+// unordered pair is unordered both ways; == agrees with partial_cmp.
 pub axiom fn ax_obeys()
     ensures
+        forall|a: f64, b: f64| (#[trigger] fcmp(a, b) == Some(core::cmp::Ordering::Less)) == (fcmp(b, a) == Some(core::cmp::Ordering::Greater)),
+        forall|a: f64, b: f64| (#[trigger] fcmp(a, b) == Some(core::cmp::Ordering::Equal)) == (fcmp(b, a) == Some(core::cmp::Ordering::Equal)),
+        forall|a: f64, b: f64| (#[trigger] fcmp(a, b) is None) == (fcmp(b, a) is None),
+        forall|a: f64, b: f64| #[trigger] feq(a, b) == (fcmp(a, b) == Some(core::cmp::Ordering::Equal)),
         <f64 as AddSpec<f64>>::obeys_add_spec(),
         <f64 as AddSpec<&f64>>::obeys_add_spec(),
         <&f64 as AddSpec<f64>>::obeys_add_spec(),
@@ -175,10 +182,13 @@ pub broadcast axiom fn ax_rv_cmp(a: f64, b: f64)
 pub broadcast axiom fn ax_rv_eq(a: f64, b: f64) ensures #[trigger] feq(a, b) == (rv(a) == rv(b));
 pub broadcast axiom fn ax_rv_max(a: f64, b: f64) ensures rv(#[trigger] fmaxf(a, b)) == (if rv(a) >= rv(b) { rv(a) } else { rv(b) });
 pub broadcast axiom fn ax_rv_min(a: f64, b: f64) ensures rv(#[trigger] fminf(a, b)) == (if rv(a) <= rv(b) { rv(a) } else { rv(b) });
+// (idealised) powf denotes a function of the real values of its arguments
+pub uninterp spec fn rpow(x: real, y: real) -> real;
+pub broadcast axiom fn ax_rv_powf(a: f64, b: f64) ensures rv(#[trigger] fpowf(a, b)) == rpow(rv(a), rv(b));
 pub axiom fn ax_rv_lits()
     ensures rv(0.0f64) == 0real, rv(1.0f64) == 1real, rv(2.0f64) == 2real, rv(0.5f64) * 2real == 1real;
 pub broadcast group ideal {
-    ax_rv_add, ax_rv_sub, ax_rv_mul, ax_rv_div, ax_rv_neg, ax_rv_cmp, ax_rv_eq, ax_rv_max, ax_rv_min
+    ax_rv_add, ax_rv_sub, ax_rv_mul, ax_rv_div, ax_rv_neg, ax_rv_cmp, ax_rv_eq, ax_rv_max, ax_rv_min, ax_rv_powf
 }
 // (idealised) integer-to-float casts are exact
 pub broadcast axiom fn ax_rv_u64(n: u64) ensures rv(#[trigger] u64_to_f64(n)) == n as real;
@@ -309,15 +319,15 @@ pub fn discount_average_strat(&self, it: u64, avg_strat: &mut [f64])
     ensures
         final(avg_strat)@.len() == old(avg_strat)@.len(),
         // gamma == +inf: everything forgotten
-        feq(self.strat, finf()) ==> forall|i: int| 0 <= i < old(avg_strat)@.len() ==> #[trigger] final(avg_strat)@[i] == 0.0f64, // @ob C08.V.discount_average_strat.inf
+        feq(self.strat, finf()) ==> forall|i: int| 0 <= i < old(avg_strat)@.len() ==> rv(#[trigger] final(avg_strat)@[i]) == 0real, // @ob C08.V.discount_average_strat.inf
         // 0 < gamma < inf: every entry times ONE ratio (t / (t + 1))^gamma
         !feq(self.strat, finf()) && fgt(self.strat, 0.0f64) ==> forall|i: int| 0 <= i < old(avg_strat)@.len() ==>
-            #[trigger] final(avg_strat)@[i] == fmul(old(avg_strat)@[i], fpowf(fdiv(u64_to_f64(it), fadd(u64_to_f64(it), 1.0f64)), self.strat)), // @ob C08.V.discount_average_strat.ratio
+            rv(#[trigger] final(avg_strat)@[i]) == rv(old(avg_strat)@[i]) * rpow((it as real) / (it as real + 1real), rv(self.strat)), // @ob C08.V.discount_average_strat.ratio
         // gamma == 0 (or negative): untouched
         !feq(self.strat, finf()) && !fgt(self.strat, 0.0f64) ==> final(avg_strat)@ == old(avg_strat)@, // @ob C08.V.discount_average_strat.zero
 {
-broadcast use fl;
-proof { ax_obeys(); }
+broadcast use fl; broadcast use ideal; broadcast use ideal_casts;
+proof { ax_obeys(); ax_rv_lits(); }
 let ghost s0 = avg_strat@;
 let ghost n = avg_strat@.len();
 
@@ -325,12 +335,12 @@ let ghost n = avg_strat@.len();
             for avg in it0: avg_strat.iter_mut() 
 invariant
     it0.snapshot@.remaining().len() == n, 0 <= it0.index@ <= n,
-    forall|i: int| 0 <= i < it0.index@ ==> *final(#[trigger] it0.snapshot@.remaining()[i]) == 0.0f64,
+    forall|i: int| 0 <= i < it0.index@ ==> rv(*final(#[trigger] it0.snapshot@.remaining()[i])) == 0real,
 ensures
-    forall|i: int| 0 <= i < n ==> *final(#[trigger] it0.snapshot@.remaining()[i]) == 0.0f64,
+    forall|i: int| 0 <= i < n ==> rv(*final(#[trigger] it0.snapshot@.remaining()[i])) == 0real,
 {
-broadcast use fl;
-proof { ax_obeys(); }
+broadcast use fl; broadcast use ideal;
+proof { ax_obeys(); ax_rv_lits(); }
 
                 *avg = 0.0;
             }
@@ -341,12 +351,13 @@ proof { ax_obeys(); }
 invariant
     it1.snapshot@.remaining().len() == n, 0 <= it1.index@ <= n,
     forall|i: int| 0 <= i < n ==> *(#[trigger] it1.snapshot@.remaining()[i]) == s0[i],
-    forall|i: int| 0 <= i < it1.index@ ==> *final(#[trigger] it1.snapshot@.remaining()[i]) == fmul(s0[i], ratio),
+    rv(ratio) == rpow((it as real) / (it as real + 1real), rv(self.strat)),
+    forall|i: int| 0 <= i < it1.index@ ==> rv(*final(#[trigger] it1.snapshot@.remaining()[i])) == rv(s0[i]) * rv(ratio),
 ensures
-    forall|i: int| 0 <= i < n ==> *final(#[trigger] it1.snapshot@.remaining()[i]) == fmul(s0[i], ratio),
+    forall|i: int| 0 <= i < n ==> rv(*final(#[trigger] it1.snapshot@.remaining()[i])) == rv(s0[i]) * rv(ratio),
 {
-broadcast use fl;
-proof { ax_obeys(); }
+broadcast use fl; broadcast use ideal;
+proof { ax_obeys(); ax_rv_lits(); }
 
                 *avg = *avg * ( ratio);
             }
@@ -360,13 +371,13 @@ pub fn discount_cum_regret(&self, it: u64, cum_reg: &mut [f64])
         final(cum_reg)@.len() == old(cum_reg)@.len(),
         // positive cumulative regrets are multiplied by the factor of alpha, negative ones by the factor
         // of beta (both for THIS iteration number), zeros stay
-        forall|i: int| 0 <= i < old(cum_reg)@.len() ==> #[trigger] final(cum_reg)@[i] ==
-            (if fgt(old(cum_reg)@[i], 0.0f64) { fmul(old(cum_reg)@[i], gd_spec(it, self.pos_regret)) }
-             else if flt(old(cum_reg)@[i], 0.0f64) { fmul(old(cum_reg)@[i], gd_spec(it, self.neg_regret)) }
-             else { old(cum_reg)@[i] }), // @ob C08.V.discount_cum_regret
+        forall|i: int| 0 <= i < old(cum_reg)@.len() ==> rv(#[trigger] final(cum_reg)@[i]) ==
+            (if rv(old(cum_reg)@[i]) > 0real { rv(old(cum_reg)@[i]) * rv(gd_spec(it, self.pos_regret)) }
+             else if rv(old(cum_reg)@[i]) < 0real { rv(old(cum_reg)@[i]) * rv(gd_spec(it, self.neg_regret)) }
+             else { rv(old(cum_reg)@[i]) }), // @ob C08.V.discount_cum_regret
 {
-broadcast use fl;
-proof { ax_obeys(); ax_mutref_cmp(); }
+broadcast use fl; broadcast use ideal;
+proof { ax_obeys(); ax_rv_lits(); ax_mutref_cmp(); }
 let ghost s0 = cum_reg@;
 let ghost n = cum_reg@.len();
 
@@ -377,14 +388,14 @@ invariant
     it0.snapshot@.remaining().len() == n, 0 <= it0.index@ <= n,
     pos == gd_spec(it, self.pos_regret), neg == gd_spec(it, self.neg_regret),
     forall|i: int| 0 <= i < n ==> *(#[trigger] it0.snapshot@.remaining()[i]) == s0[i],
-    forall|i: int| 0 <= i < it0.index@ ==> *final(#[trigger] it0.snapshot@.remaining()[i]) ==
-        (if fgt(s0[i], 0.0f64) { fmul(s0[i], pos) } else if flt(s0[i], 0.0f64) { fmul(s0[i], neg) } else { s0[i] }),
+    forall|i: int| 0 <= i < it0.index@ ==> rv(*final(#[trigger] it0.snapshot@.remaining()[i])) ==
+        (if rv(s0[i]) > 0real { rv(s0[i]) * rv(pos) } else if rv(s0[i]) < 0real { rv(s0[i]) * rv(neg) } else { rv(s0[i]) }),
 ensures
-    forall|i: int| 0 <= i < n ==> *final(#[trigger] it0.snapshot@.remaining()[i]) ==
-        (if fgt(s0[i], 0.0f64) { fmul(s0[i], pos) } else if flt(s0[i], 0.0f64) { fmul(s0[i], neg) } else { s0[i] }),
+    forall|i: int| 0 <= i < n ==> rv(*final(#[trigger] it0.snapshot@.remaining()[i])) ==
+        (if rv(s0[i]) > 0real { rv(s0[i]) * rv(pos) } else if rv(s0[i]) < 0real { rv(s0[i]) * rv(neg) } else { rv(s0[i]) }),
 {
-broadcast use fl;
-proof { ax_obeys(); ax_mutref_cmp(); }
+broadcast use fl; broadcast use ideal;
+proof { ax_obeys(); ax_rv_lits(); ax_mutref_cmp(); }
 
             if reg > &mut 0.0 {
                 *reg = *reg * ( pos);
